@@ -27,7 +27,7 @@ func init() {
 			}
 			return 2400
 		},
-		Rule: "case = tree on 3..40 tips (<= 200 thorough; rooted/unrooted, polytomies up to degree 8) x tip assignment of 1..6 states (skewed, uniform, engineered ties; labels that are identifiers, integers of 1..3 digits or mixed case) x {DOWNPASS, DELTRAN, ACCTRAN} + re-rootings; ASR on nucleotide alignments of length 1..30 with IUPAC codes and gaps; one case in thirty on a star / broom tree of 262..381 tips in which exactly 255..258 tips agree; oracle = independent Sankoff DP (min cost, per-node optimal-state sets) on the model read back from the annotated tree; every 8th case through gotree acr / asr; non-trivial = minimum cost >= 1 and at least one inner node is ambiguous or differs from a child; distinct by (tree, states)",
+		Rule: "case = tree on 3..40 tips (<= 200 thorough; rooted/unrooted, polytomies up to degree 8) x tip assignment of 1..6 states (skewed, uniform, engineered ties; labels that are identifiers, integers of 1..3 digits or mixed case) x {DOWNPASS, DELTRAN, ACCTRAN} + re-rootings (of the text, and of the object after parsing); ASR on nucleotide alignments of length 1..30 with IUPAC codes and gaps; one case in thirty on a star / broom tree of 262..381 tips in which exactly 255..258 tips agree; oracle = independent Sankoff DP (min cost, per-node optimal-state sets) on the model read back from the annotated tree; every 8th case through gotree acr / asr; non-trivial = minimum cost >= 1 and at least one inner node is ambiguous or differs from a child; distinct by (tree, states)",
 		Assumptions: []string{
 			"no random resolution; state names are short identifiers; nucleotide alphabet for ASR with '-' as its own state (as the code documents)",
 		},
